@@ -256,11 +256,26 @@ def write_log(spec: dict[str, Any], directory: Path, name: str) -> Written:
         import threading
 
         gate = threading.Event()
+        progress = {"i": 0, "done": False}
 
         def held_emit(self: Any, record: Any) -> None:
             gate.wait(60)
             real_emit(self, record)
 
+        def release_when_the_run_waits() -> None:
+            # a writer that is slow, not dead: it resumes when the run has finished logging -- or as soon as the run
+            # itself stops making progress (a bounded hand-over queue makes the run wait for the writer)
+            import time as _time
+
+            last, since = -1, _time.monotonic()
+            while not gate.is_set() and not progress["done"]:
+                _time.sleep(0.05)
+                if progress["i"] != last:
+                    last, since = progress["i"], _time.monotonic()
+                elif _time.monotonic() - since > 0.5:
+                    gate.set()
+
+        threading.Thread(target=release_when_the_run_waits, daemon=True).start()
         glog._ZstdFileHandler.emit = held_emit  # type: ignore[method-assign]
     handler = glog.add_zst_log_handler(LOGGER, path, Loglevel.TRACE)
     close_error = None
@@ -270,6 +285,8 @@ def write_log(spec: dict[str, Any], directory: Path, name: str) -> Written:
     other_span = (len(recs) // 3, max(len(recs) // 3 + 1, 2 * len(recs) // 3)) if spec.get("other_log") else None
     try:
         for i, r in enumerate(recs):
+            if gate is not None:
+                progress["i"] = i
             if other_span is not None and i == other_span[0]:
                 # a second compressed log of the same process is opened while this one is in use (a command that
                 # drives another command, two scanners in one script: gallia keeps a list of log file handlers)
@@ -309,6 +326,7 @@ def write_log(spec: dict[str, Any], directory: Path, name: str) -> Written:
                 fn(msg, *args, **kw)
     finally:
         if gate is not None:
+            progress["done"] = True
             gate.set()
         if other_handler is not None:
             try:
